@@ -48,6 +48,12 @@ def directed(rnd, quick):
     # chunk-size lines with every hex digit, upper and lower case boundaries (10..15, 26, 171, 255, 256, 4096)
     for cs in (10, 11, 12, 13, 14, 15, 26, 171, 255, 256, 4096):
         cases.append({"ex": [ex(1, "chunked", cs * 2 + 3, chunk=cs, seg=rnd.choice([1, 9, 1 << 20])), ex(2, "cl", 5)], "limit": 2, "concurrent": 1})
+    # chunked coding together with a Content-Length (equal to, smaller and larger than the coded body): the coding decides
+    for also in (9, 2, 23, 60):
+        for seg in (1 << 20, 1, 6):
+            e1 = ex(1, "chunked", 9, seg=seg, chunk=5)
+            e1["also_cl"] = also
+            cases.append({"ex": [e1, ex(2, "cl", 5), ex(3, "chunked", 8)], "limit": 1, "concurrent": 1})
     # leftovers after a complete response on a persistent connection, then another request
     for framing in ("cl", "chunked"):
         cases.append({"ex": [ex(1, framing, 12, extra=True), ex(2, "cl", 5), ex(3, "cl", 5)], "limit": 2, "concurrent": 1})
@@ -88,7 +94,7 @@ def run(rep):
                        "with connection: close / dropped early by the application, against a pool limit, explored by TLC; completed behaviours are "
                        "concretised (framing and sizes rotate) and run through awc::Client over a scripted in-memory connector; plus a close at "
                        "every byte offset of Content-Length and chunked bodies under three segmentations, leftovers, and concurrency above the "
-                       "limit. distinct = cases")
+                       "limit; chunked responses that also carry a Content-Length. distinct = cases")
     for c in cases[:1] + cases[-1:]:
         rep.sample(c)
     tpath = ar.run_cases(cases, "all")
